@@ -18,8 +18,8 @@ ASSUMPTIONS = ["oracle networks give each animal's centroid a distinct known amp
                "the labelled-frame assembly (make_labels=True: bbox re-addition, bottom-up max_instances) runs under a harness-side shim translating the legacy sleap-io keywords; "
                "if that path cannot run the sub-check is counted inconclusive, never held"]
 SHARDS = {"quick": 8, "thorough": 16}
-N = {"quick": 72, "thorough": 1600}
-BUDGET = {"quick": 110, "thorough": 1700}
+N = {"quick": 72, "thorough": 6400}
+BUDGET = {"quick": 110, "thorough": 600}
 TIMEOUT = {"quick": 800, "thorough": 3400}
 SELF_SHARDED = True
 
